@@ -129,6 +129,24 @@ static void rec_block(void* p, size_t req, prng_t* g, int noffs) {
   }
 }
 
+// boundary of the back-offsets: for a span longer than MI_MAX_SLICE_OFFSET_COUNT slices the lookup must still work for
+// addresses in the slices at distance 1, MI_MAX_SLICE_OFFSET_COUNT-1 and MI_MAX_SLICE_OFFSET_COUNT from its first slice
+static void rec_block_offsets(void* p) {
+  mi_segment_t* seg = _mi_ptr_segment(p);
+  mi_page_t* page = _mi_segment_page_of(seg, p);
+  size_t idx = (mi_slice_t*)page - seg->slices;
+  if (page->slice_count <= MI_MAX_SLICE_OFFSET_COUNT) return;
+  const size_t ds[] = { 1, MI_MAX_SLICE_OFFSET_COUNT - 1, MI_MAX_SLICE_OFFSET_COUNT };
+  for (int k = 0; k < 3; k++) {
+    uint8_t* q = (uint8_t*)seg + (idx + ds[k]) * MI_SEGMENT_SLICE_SIZE + 8 * (size_t)k;
+    if (q >= (uint8_t*)p + mi_usable_size(p)) continue;
+    if ((size_t)(q - (uint8_t*)seg) > MI_SEGMENT_SIZE) continue;        // _mi_ptr_segment resolves the first MI_SEGMENT_SIZE bytes only
+    mi_segment_t* s2 = _mi_ptr_segment(q);
+    mi_page_t* pg2 = _mi_segment_page_of(s2, q);
+    printf("T page_of %llu %llu %d\n", U(q), U(idx + ds[k]), (pg2 == page && s2 == seg) ? 1 : 0);
+  }
+}
+
 int main(int argc, char** argv) {
   uint64_t seed = (argc > 1 ? strtoull(argv[1], NULL, 10) : 1);
   int thorough = (argc > 2 && atoi(argv[2]) > 0);
@@ -219,6 +237,7 @@ int main(int argc, char** argv) {
       void* p = mi_malloc(big[i]);
       if (p == NULL) { printf("T malloc_null %llu\n", U(big[i])); continue; }
       rec_block(p, big[i], &g, 6);
+      rec_block_offsets(p);
       mi_free(p);
     }
     for (int i = 0; i < (thorough ? 400 : 60); i++) {
@@ -226,6 +245,7 @@ int main(int argc, char** argv) {
       void* p = mi_malloc(s);
       if (p == NULL) continue;
       rec_block(p, s, &g, 6);
+      rec_block_offsets(p);
       mi_free(p);
     }
     for (size_t i = 0; i < nk; i++) mi_free(keep[i]);
